@@ -454,7 +454,7 @@ package parser
 
 //@ pred PosIn(q, n) := q.Line >= 1 && q.Column >= 1 && q.Line <= n + 1 && q.Column <= n + 1
 //@ pred ErrOK(p) := forall k int :: {p.errors[k]} 0 <= k && k < len(p.errors) ==> PosIn(p.errors[k].Pos, len(p.lexer.input))
-//@ pred ParInv(p) := p != nil && p.lexer != nil && LexInv(p.lexer) && Pos16(p.lexer) && (p.current.Type == TokenEOF ==> p.lexer.pos == len(p.lexer.input)) && PosIn(p.current.Pos, len(p.lexer.input)) && PosIn(p.current.End, len(p.lexer.input)) && ErrOK(p)
+//@ pred ParInv(p) := p != nil && p.lexer != nil && LexInv(p.lexer) && Pos16(p.lexer) && (p.current.Type == TokenEOF ==> p.lexer.pos == len(p.lexer.input)) && PosIn(p.current.Pos, len(p.lexer.input)) && PosIn(p.current.End, len(p.lexer.input)) && PosOK(p.lexer.input, p.current.Pos) && PosOK(p.lexer.input, p.current.End) && ErrOK(p)
 //@ pred MuLe(p) := 2 * (len(p.lexer.input) - p.lexer.pos) + ite(p.current.Type != TokenEOF, 1, 0) <= old(2 * (len(p.lexer.input) - p.lexer.pos) + ite(p.current.Type != TokenEOF, 1, 0))
 //@ pred MuLt(p) := 2 * (len(p.lexer.input) - p.lexer.pos) + ite(p.current.Type != TokenEOF, 1, 0) < old(2 * (len(p.lexer.input) - p.lexer.pos) + ite(p.current.Type != TokenEOF, 1, 0))
 //@ pred Mu(p) := 2 * (len(p.lexer.input) - p.lexer.pos) + ite(p.current.Type != TokenEOF, 1, 0)
@@ -567,9 +567,10 @@ package parser
 //@   modifies p.current, p.errors, p.defaultYear, p.lexer.pos, p.lexer.column, p.lexer.line, p.lexer.atStart
 
 //@ func (*Parser).parseTransaction
-//@   props C06
+//@   props C06 C08
 //@   requires ParInv(p) && p.current.Type == TokenDate
 //@   ensures [inv] ParInv(p) && PFrame(p) && MuLe(p)
+//@   ensures [C08:description_pos] result != nil ==> (result.DescriptionPos.Line == 0 && result.DescriptionPos.Column == 0) || PosOK(p.lexer.input, result.DescriptionPos)
 //@   ensures [lt] MuLt(p)
 //@   modifies p.current, p.errors, p.defaultYear, p.lexer.pos, p.lexer.column, p.lexer.line, p.lexer.atStart
 //@   loop 1 invariant ParInv(p) && PFrame(p) && MuLt(p)
